@@ -599,6 +599,53 @@ def run_big(case, ctx):
     ctx.nt(True)
 
 
+# ------------------------------------------------------------------ valid collections at the edge of the doubles
+def enum_extreme(tier, seed):
+    import sys
+
+    M = sys.float_info.max
+    tiny = 5e-324
+    variants = {
+        "L_max": dict(L=M),
+        "L_tiny": dict(L=2 * tiny),
+        "times_pm_max": dict(t_leaf=-M, t_root=M),
+        "times_max_neighbours": dict(t_leaf=math.nextafter(M, 0), t_root=M),
+        "times_tiny": dict(t_leaf=0.0, t_root=tiny),
+        "times_neg_tiny": dict(t_leaf=-tiny, t_root=0.0),
+        "mutation_time_max": dict(t_leaf=0.0, t_root=1e308, t_mut=M),
+        "mutation_time_neg_max": dict(t_leaf=-M, t_root=0.0, t_mut_leaf=-M),
+        "migration_time_max": dict(t_mig=M),
+        "migration_time_neg_max": dict(t_mig=-M),
+        "all": dict(L=M, t_leaf=-M, t_root=M, t_mig=M),
+    }
+    for name, v in variants.items():
+        for via_file in (False, True):
+            yield dict(name=name, v=v, via_file=via_file)
+
+
+def run_extreme(case, ctx):
+    v = case["v"]
+    L = F(v.get("L", 10.0))
+    tl, tr = F(v.get("t_leaf", 0.0)), F(v.get("t_root", 1.0))
+    half = L / 2
+    nodes = [[1, tl, 0, -1, ""], [1, tl, 0, -1, ""], [0, tr, 0, -1, ""]]
+    edges = [[0.0, L, 2, 0, ""], [0.0, half, 2, 1, ""]]
+    sites = [[0.0, "A", ""], [math.nextafter(L, 0.0), "C", ""]]
+    muts = []
+    if "t_mut" in v:
+        muts.append([0, 2, "T", -1, F(v["t_mut"]), ""])
+    if "t_mut_leaf" in v:
+        muts.append([1, 0, "G", -1, F(v["t_mut_leaf"]), ""])
+    migs = [[0.0, L, 0, 0, 0, F(v.get("t_mig", 0.5)), ""]]
+    spec = dict(L=L, nodes=nodes, edges=edges, sites=sites, mutations=muts, migrations=migs, individuals=[],
+                populations=[[""]])
+    verdict, reasons = validity(spec, None)
+    if verdict != "VALID":
+        raise AssertionError(f"harness: extreme spec {case['name']} is not valid by the predicate: {reasons}")
+    run_case(dict(spec=spec, index=None, ops=[], via_file=case["via_file"]), ctx)
+    ctx.nt(True)
+
+
 SUBCHECKS = [
     SubCheck("C02.perturbed", run_case, strategy=perturbed_case, quick=6000, thorough=300000,
              rule="INVALID by exactly one reason through a single boundary operator, or VALID with >=2 trees",
@@ -611,4 +658,7 @@ SUBCHECKS = [
     SubCheck("C02.large_tables", run_big, enumerate=enum_big, quick=1, thorough=1, shards=16,
              rule="the operators of C02.perturbed applied at rows beyond 2^16 of a collection with 70000 "
              "leaves, 2K edges, K sites, 1.5K mutations; one unperturbed case"),
+    SubCheck("C02.extreme_valid", run_extreme, enumerate=enum_extreme, quick=1, thorough=1,
+             rule="valid collections whose sequence length, node, mutation or migration times are +-DBL_MAX, the "
+             "neighbouring doubles, or subnormal; tree_sequence() and dump + tskit.load must accept them"),
 ]
